@@ -204,6 +204,633 @@ def singleton_rows(sources):
 
 
 # ------------------------------------------------------------------------------------------------
+# R4: the construction code of the datatypes (symbolic execution of the straight-line block of getType())
+# ------------------------------------------------------------------------------------------------
+TYPEPROG_NAMES = {
+    "MPITraits<$1>": "fallback",
+    "MPITraits<FieldVector<$1,$2>>": "fieldVector",
+    "MPITraits<bigunsignedint<$1>>": "bigUnsigned",
+    "MPITraits<std::pair<$1,$2>>": "pair",
+    "MPITraits<ParallelLocalIndex<$1>>": "localIndex",
+    "MPITraits<IndexPair<$1,ParallelLocalIndex<$2>>>": "indexPair",
+}
+
+
+def _nows(t):
+    return re.sub(r"\s+", "", t)
+
+
+class _TypeProg:
+    """symbolic execution of `if (handle == MPI_DATATYPE_NULL) { ... } return handle;`"""
+
+    def __init__(self, fam, params, selftype, block, handle):
+        self.fam, self.params, self.self_t, self.handle = fam, params, _nows(selftype), handle
+        self.alias = {}          # using X = <self type>
+        self.objs = set()        # local objects of the self type
+        self.val = {}            # variable / array element -> symbolic value
+        self.arr = {}            # array name -> length
+        self.committed = set()
+        self.freed = set()
+        for st in self.statements(block):
+            self.step(st)
+
+    def fail(self, msg):
+        raise TranslateError("%s::getType(): %s" % (self.fam, msg))
+
+    @staticmethod
+    def statements(block):
+        depth, cur, out = 0, "", []
+        for c in block:
+            if c in "([{":
+                depth += 1
+            elif c in ")]}":
+                depth -= 1
+            if c == ";" and depth == 0:
+                out.append(re.sub(r"\s+", " ", cur).strip())
+                cur = ""
+            else:
+                cur += c
+        if cur.strip():
+            out.append(re.sub(r"\s+", " ", cur).strip())
+        return [x for x in out if x]
+
+    def is_self(self, t):
+        t = _nows(t)
+        return t == self.self_t or t in self.alias
+
+    def pnum(self, name):
+        return self.params.index(name) + 1 if name in self.params else None
+
+    # --- expressions -----------------------------------------------------------------------------
+    def cnt(self, text):
+        t = _nows(text)
+        if re.fullmatch(r"\d+", t):
+            return "(.lit %s)" % t
+        if self.pnum(t):
+            return "(.tparam %d)" % self.pnum(t)
+        m = re.fullmatch(r"sizeof\((.*)\)", t)
+        if m:
+            if self.is_self(m.group(1)):
+                return ".sizeofSelf"
+            if self.pnum(m.group(1)):
+                return "(.sizeofParam %d)" % self.pnum(m.group(1))
+            self.fail("sizeof of an unexpected type: " + text)
+        m = re.fullmatch(r"(.*)::(%s)" % IDENT_, t)
+        if m and self.is_self(m.group(1)):
+            return "(.selfConst %s)" % lean_str(m.group(2))
+        self.fail("count expression not understood: " + text)
+
+    def intval(self, text):
+        t = _nows(text)
+        if re.fullmatch(r"\d+", t):
+            return int(t)
+        if t in self.val and isinstance(self.val[t], int):
+            return self.val[t]
+        self.fail("integer not understood: " + text)
+
+    def typ(self, text):
+        t = _nows(text)
+        m = re.fullmatch(r"MPITraits<(.*)>::getType\(\)", t)
+        if m:
+            a = m.group(1)
+            if self.pnum(a):
+                return "(.param %d)" % self.pnum(a)
+            for k, q in enumerate(self.params):
+                a = re.sub(r"\b%s\b" % re.escape(q), "$%d" % (k + 1), a)
+            return "(.named %s)" % lean_str(a)
+        if re.fullmatch(r"MPI_[A-Z_0-9]+", t) and t != "MPI_DATATYPE_NULL":
+            return "(.named %s)" % lean_str(t)
+        if t in self.val and isinstance(self.val[t], str):
+            if t in self.freed:
+                self.fail("datatype %s used after MPI_Type_free" % t)
+            return self.val[t]
+        self.fail("datatype expression not understood: " + text)
+
+    def seq(self, text, what):
+        """`name` (array) or `&name` (scalar / one element) -> list of element keys"""
+        t = _nows(text)
+        if t.startswith("&"):
+            return [t[1:]]
+        if t in self.arr:
+            return ["%s[%d]" % (t, i) for i in range(self.arr[t])]
+        self.fail("%s argument not understood: %s" % (what, text))
+
+    def lvalue(self, text):
+        t = _nows(text)
+        m = re.fullmatch(r"(%s)(?:\[(\d+)\])?" % IDENT_, t)
+        if not m:
+            self.fail("assignment target not understood: " + text)
+        return t
+
+    # --- statements ------------------------------------------------------------------------------
+    def step(self, st):
+        m = re.fullmatch(r"static_assert ?\(.*\)", st)
+        if m:
+            return
+        m = re.fullmatch(r"using (%s) ?= ?(.*)" % IDENT_, st)
+        if m:
+            if not self.is_self(m.group(2)):
+                self.fail("alias of a type other than the specialised one: " + st)
+            self.alias[m.group(1)] = True
+            return
+        m = re.fullmatch(r"int (%s) ?= ?(\d+)" % IDENT_, st)
+        if m:
+            self.val[m.group(1)] = int(m.group(2))
+            return
+        m = re.fullmatch(r"int (%s) ?\[ ?(\d+) ?\] ?= ?\{(.*)\}" % IDENT_, st)
+        if m:
+            items = split_top(m.group(3))
+            if len(items) != int(m.group(2)):
+                self.fail("initialiser length: " + st)
+            self.arr[m.group(1)] = len(items)
+            for i, it in enumerate(items):
+                self.val["%s[%d]" % (m.group(1), i)] = self.intval(it)
+            return
+        m = re.fullmatch(r"MPI_Aint (.*)", st)
+        if m:
+            for d in split_top(m.group(1)):
+                dm = re.fullmatch(r"(%s) ?(?:\[ ?(\d+) ?\])?" % IDENT_, d)
+                if not dm:
+                    self.fail("declaration not understood: " + st)
+                if dm.group(2):
+                    self.arr[dm.group(1)] = int(dm.group(2))
+            return
+        m = re.fullmatch(r"MPI_Datatype (%s) ?\[ ?(\d+) ?\] ?= ?\{(.*)\}" % IDENT_, st)
+        if m:
+            items = split_top(m.group(3))
+            if len(items) != int(m.group(2)):
+                self.fail("initialiser length: " + st)
+            self.arr[m.group(1)] = len(items)
+            for i, it in enumerate(items):
+                self.val["%s[%d]" % (m.group(1), i)] = self.typ(it)
+            return
+        m = re.fullmatch(r"MPI_Datatype (%s)" % IDENT_, st)
+        if m:
+            return
+        m = re.fullmatch(r"MPI_Get_address ?\( ?& ?(.*?) ?, ?& ?(.*?) ?\)", st)
+        if m:
+            src, dst = _nows(m.group(1)), self.lvalue(m.group(2))
+            if src in self.objs:
+                self.val[dst] = ("addr", src, None)
+                return
+            sm = re.fullmatch(r"\(?(%s)(?:\.(%s)|(\[\d+\]))\)?" % (IDENT_, IDENT_), src)
+            if sm and sm.group(1) in self.objs:
+                self.val[dst] = ("addr", sm.group(1), sm.group(2) or sm.group(3))
+                return
+            self.fail("address of something that is not (a member of) a local object of the type: " + st)
+        m = re.fullmatch(r"for ?\( ?(?:MPI_Aint|auto) ?& ?(%s) ?: ?(%s) ?\) ?\{? ?(%s) ?-= ?(%s) ?;? ?\}?" % (IDENT_, IDENT_, IDENT_, IDENT_), st)
+        if m and m.group(1) == m.group(3) and m.group(2) in self.arr:
+            for i in range(self.arr[m.group(2)]):
+                self.subtract("%s[%d]" % (m.group(2), i), m.group(4), st)
+            return
+        m = re.fullmatch(r"(%s(?: ?\[ ?\d+ ?\])?) ?-= ?(%s)" % (IDENT_, IDENT_), st)
+        if m:
+            self.subtract(self.lvalue(m.group(1)), m.group(2), st)
+            return
+        m = re.fullmatch(r"(%s(?: ?\[ ?\d+ ?\])?) ?= ?offsetof ?\((.*), ?(%s) ?\)" % (IDENT_, IDENT_), st)
+        if m:
+            if not self.is_self(m.group(2)):
+                self.fail("offsetof into another type: " + st)
+            self.val[self.lvalue(m.group(1))] = ("off", m.group(3))
+            return
+        m = re.fullmatch(r"(MPI_Type_\w+) ?\((.*)\)", st)
+        if m:
+            self.mpi_call(m.group(1), split_top(m.group(2)), st)
+            return
+        # declaration of a local object of the specialised type: `<type> name`
+        m = re.fullmatch(r"(.*[>\w]) (%s)" % IDENT_, st)
+        if m and self.is_self(m.group(1)):
+            self.objs.add(m.group(2))
+            return
+        self.fail("statement outside the grammar: " + st)
+
+    def subtract(self, key, base, st):
+        a, b = self.val.get(key), self.val.get(base)
+        if not (isinstance(a, tuple) and a[0] == "addr" and isinstance(b, tuple) and b[0] == "addr" and b[2] is None
+                and a[1] == b[1] and a[2] is not None):
+            self.fail("displacement is not (address of a member) - (address of the same object): " + st)
+        self.val[key] = ("off", a[2])
+
+    def out(self, arg, st):
+        t = _nows(arg)
+        if not re.fullmatch(r"&%s" % IDENT_, t):
+            self.fail("output handle not understood: " + st)
+        return t[1:]
+
+    def mpi_call(self, fn, args, st):
+        if fn == "MPI_Type_contiguous" and len(args) == 3:
+            self.val[self.out(args[2], st)] = "(.contig %s %s)" % (self.cnt(args[0]), self.typ(args[1]))
+        elif fn == "MPI_Type_create_struct" and len(args) == 5:
+            n = self.intval(args[0])
+            lens, disps, types = self.seq(args[1], "blocklength"), self.seq(args[2], "displacement"), self.seq(args[3], "type")
+            if not (len(lens) == len(disps) == len(types) == n):
+                self.fail("member count %d does not match the arrays: %s" % (n, st))
+            members = []
+            for l, d, t in zip(lens, disps, types):
+                lv, dv, tv = self.val.get(l), self.val.get(d), self.val.get(t)
+                if not isinstance(lv, int):
+                    self.fail("blocklength %s has no known value" % l)
+                if not (isinstance(dv, tuple) and dv[0] == "off"):
+                    self.fail("displacement %s is not an offset of a member" % d)
+                if not isinstance(tv, str):
+                    self.fail("member type %s has no known value" % t)
+                members.append((dv[1], lv, tv))
+            # the order of the members of a struct datatype does not change which cells are transferred: canonical order
+            members.sort(key=lambda q: q[0])
+            e = ".snil"
+            for (mem, lv, tv) in reversed(members):
+                e = "(.scons %s %d %s %s)" % (lean_str(mem), lv, tv, e)
+            self.val[self.out(args[4], st)] = e
+        elif fn == "MPI_Type_create_resized" and len(args) == 4:
+            if _nows(args[1]) != "0":
+                self.fail("lower bound other than 0: " + st)
+            self.val[self.out(args[3], st)] = "(.resized %s %s)" % (self.typ(args[0]), self.cnt(args[2]))
+        elif fn == "MPI_Type_commit" and len(args) == 1:
+            self.committed.add(self.out(args[0], st))
+        elif fn == "MPI_Type_free" and len(args) == 1:
+            self.freed.add(self.out(args[0], st))
+        else:
+            self.fail("MPI call outside the grammar: " + st)
+
+    def result(self):
+        if self.handle not in self.committed:
+            self.fail("the returned handle `%s` is never committed" % self.handle)
+        if self.handle in self.freed:
+            self.fail("the returned handle `%s` is freed" % self.handle)
+        v = self.val.get(self.handle)
+        if not isinstance(v, str):
+            self.fail("the returned handle `%s` is never built" % self.handle)
+        return v
+
+
+def type_programs(sources):
+    """(lean name, family, expression) for the construction block of every MPITraits<...>::getType() with state"""
+    progs = []
+    for src0 in sources:
+        src = re.sub(r"\\\n", " ", src0)
+        for m in re.finditer(r"template\s*<([^{};]*?)>\s*(?:struct|class)\s+MPITraits\s*(<[^{};]*>)?\s*\{", src):
+            header, spec = m.group(1), m.group(2)
+            if not header.strip():
+                continue
+            params = template_params(header)
+            start = m.end() - 1
+            body = src[start + 1:balanced(src, start) - 1]
+            spec_n = _nows(spec) if spec else "<" + ",".join(params) + ">"
+            gm = re.search(r"\bgetType\s*\(\s*\)\s*\{", body)
+            if gm:
+                gbody = body[gm.end():balanced(body, gm.end() - 1) - 1]
+            else:
+                gbody = None
+                for om in re.finditer(r"\bMPITraits\s*(<[^{};()]*>)\s*::\s*getType\s*\(\s*\)\s*\{", src):
+                    if _nows(om.group(1)) == spec_n:
+                        gbody = src[om.end():balanced(src, om.end() - 1) - 1]
+                if gbody is None:
+                    raise TranslateError("MPITraits%s: definition of getType() not found" % spec_n)
+            fam = "MPITraits" + spec_n
+            for k, q in enumerate(params):
+                fam = re.sub(r"\b%s\b" % re.escape(q), "$%d" % (k + 1), fam)
+            if fam not in TYPEPROG_NAMES:
+                raise TranslateError("datatype construction of an unknown class template: " + fam)
+            g = gbody.strip()
+            hm = re.match(r"if\s*\(\s*(%s)\s*==\s*MPI_DATATYPE_NULL\s*\)\s*\{" % IDENT_, g)
+            if not hm:
+                raise TranslateError("%s::getType(): does not start with `if (handle == MPI_DATATYPE_NULL) {`" % fam)
+            end = balanced(g, hm.end() - 1)
+            block, rest = g[hm.end():end - 1], re.sub(r"\s+", " ", g[end:]).strip()
+            if rest != "return %s;" % hm.group(1):
+                raise TranslateError("%s::getType(): code after the construction block: %s" % (fam, rest))
+            selftype = spec_n[1:-1]
+            progs.append((TYPEPROG_NAMES[fam], fam, _TypeProg(fam, params, selftype, block, hm.group(1)).result()))
+    missing = [f for f in TYPEPROG_NAMES if f not in [p[1] for p in progs]]
+    if missing:
+        raise TranslateError("datatype construction not found for " + ", ".join(missing))
+    if len(set(p[0] for p in progs)) != len(progs):
+        raise TranslateError("a datatype is constructed twice")
+    return progs
+
+
+# ------------------------------------------------------------------------------------------------
+# R4: the MPI call every wrapper of Communication<MPI_Comm> issues (symbolic execution of the wrapper bodies)
+# ------------------------------------------------------------------------------------------------
+WRAPPERS = ["send_3", "isend_3", "recv_4", "irecv_3", "broadcast_3", "ibroadcast_2", "gather_4", "igather_3", "gatherv_6",
+            "scatter_4", "iscatter_3", "scatterv_6", "allgather_3", "iallgather_2", "allgatherv_5", "allreduce_3",
+            "allreduce_1", "iallreduce_2", "iallreduce_1", "allreduce_2", "sum_1", "sum_2", "prod_1", "prod_2", "min_1",
+            "min_2", "max_1", "max_2", "rrecv_4", "barrier_0", "ibarrier_0"]
+
+RRECV_EXTRA = ["MPI_Status_status", "MPI_Message_message", "if(status==MPI_STATUS_IGNORE)status=&_status", "intsize",
+               "mpi_data.resize(size)"]
+ALLREDUCE2_EXTRA = ["Type*out=newType[len]", "std::copy(out,out+len,inout)", "delete[]out"]
+
+
+def mpi_class_body(src):
+    m = re.search(r"class\s+Communication\s*<\s*MPI_Comm\s*>\s*\{", src)
+    if not m:
+        raise TranslateError("class Communication<MPI_Comm> not found")
+    start = m.end() - 1
+    return src[start + 1:balanced(src, start) - 1]
+
+
+def method_templates(body):
+    """template parameter names of every member function, in the order methods() yields them"""
+    res, i, last = [], 0, 0
+    while i < len(body):
+        if body[i] == "{":
+            end = balanced(body, i)
+            sig = body[last:i].split(";")[-1]
+            names = []
+            tm = re.search(r"template\s*<", sig)
+            if tm:
+                j = sig.index("<", tm.start())
+                names = template_params(sig[j + 1:balanced(sig, j, "<", ">") - 1])
+            res.append(names)
+            i = last = end
+        else:
+            i += 1
+    return res
+
+
+def body_statements(body):
+    """top-level statements of a wrapper body; an `if (...) stmt` stays one statement"""
+    return _TypeProg.statements(body)
+
+
+class _Wrapper:
+    def __init__(self, name, params, tparams, body):
+        self.name, self.params, self.tparams = "%s_%d" % (name, len(params)), params, tparams
+        self.pos = {p: k + 1 for k, (t, p) in enumerate(params)}
+        self.ptype = {p: _nows(t) for (t, p) in params}
+        self.obj = {}       # local object / MPIData view -> parameter position it denotes (0 = local result object)
+        self.ints = {}      # local int -> count expression (num, den)
+        self.calls = []
+        self.deleg = None
+        self.guard = None
+        self.extra = []
+        self.same = []
+        self.stmts = body_statements(body)
+        for st in self.stmts:
+            self.step(st)
+
+    def fail(self, msg):
+        raise TranslateError("Communication<MPI_Comm>::%s: %s" % (self.name, msg))
+
+    def tnum(self, t):
+        t = _nows(t)
+        for k, q in enumerate(self.tparams):
+            t = re.sub(r"\b%s\b" % re.escape(q), "$%d" % (k + 1), t)
+        return t
+
+    def objpos(self, name):
+        name = _nows(name)
+        fm = re.fullmatch(r"std::forward<[^()]*>\((%s)\)" % IDENT_, name)
+        if fm:
+            name = fm.group(1)
+        if name in self.obj:
+            return self.obj[name]
+        if name in self.pos:
+            return self.pos[name]
+        self.fail("object not understood: " + name)
+
+    def atom(self, t):
+        t = _nows(t)
+        if re.fullmatch(r"\d+", t):
+            return [".lit %s" % t], []
+        if t in ("(me==root)", "(root==me)"):
+            return [".isRoot"], []
+        if t == "procs":
+            return [".procs"], []
+        m = re.fullmatch(r"(%s)\.size\(\)" % IDENT_, t)
+        if m and m.group(1) in self.obj:
+            return [".sizeOf %d" % self.obj[m.group(1)]], []
+        if t in self.ints:
+            return self.ints[t]
+        if t in self.pos and self.ptype[t] == "int" and t not in ("root", "tag", "dest_rank", "source_rank"):
+            return [".par %d" % self.pos[t]], []
+        self.fail("count expression not understood: " + t)
+
+    def cexpr(self, text):
+        """left-associative products / quotients of atoms: a*b/c -> (a*b)/c; the factors of a product are sorted"""
+        toks, depth, cur = [], 0, ""
+        for c in _nows(text):
+            if c == "(":
+                depth += 1
+            elif c == ")":
+                depth -= 1
+            if c in "*/" and depth == 0:
+                toks += [cur, c]
+                cur = ""
+            else:
+                cur += c
+        toks.append(cur)
+        num, den = self.atom(toks[0])
+        num, den = list(num), list(den)
+        for k in range(1, len(toks), 2):
+            n2, d2 = self.atom(toks[k + 1])
+            if toks[k] == "*":
+                if den or d2:
+                    self.fail("multiplication after a division (integer division does not commute): " + text)
+                num += n2
+            else:
+                if d2:
+                    self.fail("nested division: " + text)
+                den += n2
+        return sorted(num), sorted(den)
+
+    @staticmethod
+    def cstr(e):
+        return "⟨[%s], [%s]⟩" % (", ".join(e[0]), ", ".join(e[1]))
+
+    def arg(self, a):
+        t = _nows(a)
+        if t == "communicator":
+            return ".comm"
+        if t == "&future.req_":
+            return ".req"
+        if t == "MPI_IN_PLACE":
+            return ".inPlace"
+        if t == "status" and self.ptype.get("status") == "MPI_Status*":
+            return ".status"
+        m = re.fullmatch(r"(%s)\.(ptr|size|type)\(\)" % IDENT_, t)
+        if m and m.group(1) in self.obj:
+            k = self.obj[m.group(1)]
+            return {"ptr": ".buf %d" % k, "size": ".cnt ⟨[.sizeOf %d], []⟩" % k, "type": ".tyOf %d" % k}[m.group(2)]
+        m = re.fullmatch(r"const_cast<(.*)\*>\((%s)\)" % IDENT_, t)
+        if m:
+            p = m.group(2)
+            if p not in self.pos or self.ptype[p] != "const" + m.group(1) + "*":
+                self.fail("const_cast changes the type: " + a)
+            return ".buf %d" % self.pos[p]
+        m = re.fullmatch(r"&?(%s)" % IDENT_, t)
+        if m and m.group(1) in self.pos:
+            p = m.group(1)
+            pt = self.ptype[p]
+            if t.startswith("&"):
+                if pt.endswith("&") and not pt.endswith("&&"):
+                    return ".buf %d" % self.pos[p]        # address of a reference parameter
+                self.fail("address of a parameter: " + a)
+            if pt == "int*":
+                return ".arr %d" % self.pos[p]
+            if pt.endswith("*") and pt != "MPI_Status*":
+                return ".buf %d" % self.pos[p]
+            if pt == "int" and p == "root":
+                return ".root"
+            if pt == "int" and p in ("dest_rank", "source_rank"):
+                return ".peer"
+            if pt == "int" and p == "tag":
+                return ".tag"
+        m = re.fullmatch(r"&(%s)" % IDENT_, t)
+        if m and m.group(1) in self.obj:
+            return ".buf %d" % self.obj[m.group(1)]
+        if "*" + t in self.obj:
+            return ".buf %d" % self.obj["*" + t]
+        m = re.fullmatch(r"MPITraits<(.*)>::getType\(\)", t)
+        if m:
+            return ".tyT %s" % lean_str(self.tnum(m.group(1)))
+        m = re.fullmatch(r"\(?Generic_MPI_Op<(.*),(%s)>::get\(\)\)?" % IDENT_, t)
+        if m:
+            e = m.group(1)
+            dm = re.fullmatch(r"typenamedecltype\((%s)\)::element_type" % IDENT_, e)
+            if dm and dm.group(1) in self.obj:
+                return ".op (.elemOf %d) %s" % (self.obj[dm.group(1)], lean_str(self.tnum(m.group(2))))
+            return ".op (.named %s) %s" % (lean_str(self.tnum(e)), lean_str(self.tnum(m.group(2))))
+        return ".cnt " + self.cstr(self.cexpr(a))
+
+    def step(self, st):
+        if not st:
+            return
+        m = re.fullmatch(r"assert ?\( ?(%s)\.type\(\) ?== ?(%s)\.type\(\) ?\)" % (IDENT_, IDENT_), st)
+        if m and m.group(1) in self.obj and m.group(2) in self.obj:
+            self.same.append(tuple(sorted((self.obj[m.group(1)], self.obj[m.group(2)]))))   # asserted: same datatype
+            return
+        if re.fullmatch(r"(static_)?assert ?\(.*\)", st):
+            return
+        m = re.fullmatch(r"MPIFuture<[^()]*> future ?\((.*)\)", st)
+        if m:
+            args = split_top(m.group(1))
+            if len(args) == 1 and _nows(args[0]) == "true":
+                return
+            self.obj["future.data"] = self.objpos(args[0])
+            if len(args) == 2:
+                self.obj["future.send"] = self.objpos(args[1])
+            elif len(args) != 1:
+                self.fail("future constructed from %d objects" % len(args))
+            return
+        m = re.fullmatch(r"auto (%s) ?= ?future\.(get_mpidata|get_send_mpidata) ?\( ?\)" % IDENT_, st)
+        if m:
+            key = "future.data" if m.group(2) == "get_mpidata" else "future.send"
+            if key not in self.obj:
+                self.fail("future has no such data: " + st)
+            self.obj[m.group(1)] = self.obj[key]
+            return
+        m = re.fullmatch(r"auto (%s) ?= ?getMPIData ?\((.*)\)" % IDENT_, st)
+        if m:
+            self.obj[m.group(1)] = self.objpos(m.group(2))
+            return
+        m = re.fullmatch(r"(%s) (%s) ?(?:\((.*)\)|= ?(.*))" % (IDENT_, IDENT_), st)
+        if m and m.group(1) in self.tparams and (m.group(3) or m.group(4)):
+            self.obj[m.group(2)] = self.objpos(m.group(3) or m.group(4))      # `T lvalue_data(std::forward<T>(data))`
+            return
+        m = re.fullmatch(r"(%s) (%s)" % (IDENT_, IDENT_), st)
+        if m and m.group(1) in self.tparams:
+            self.obj[m.group(2)] = 0                                          # a local result object `T out;`
+            return
+        m = re.fullmatch(r"int (%s) ?= ?(.*)" % IDENT_, st)
+        if m and not re.match(r"(MPI_|allreduce)", m.group(2)):
+            self.ints[m.group(1)] = self.cexpr(m.group(2))
+            return
+        m = re.fullmatch(r"if ?\( ?(%s)\.size\(\) ?== ?0 ?\) ?DUNE_THROW ?\( ?ParallelError.*\)" % IDENT_, st)
+        if m and m.group(1) in self.obj:
+            if self.calls:
+                self.fail("guard after the MPI call")
+            self.guard = "throwIfEmpty %d" % self.obj[m.group(1)]
+            return
+        m = re.fullmatch(r"(?:return )?(MPI_\w+) ?\((.*)\)", st)
+        if m:
+            if m.group(1) in ("MPI_Mprobe", "MPI_Get_count", "MPI_Mrecv"):
+                self.calls.append((m.group(1), [_nows(a) for a in split_top(m.group(2))]))
+            else:
+                self.calls.append((m.group(1), [self.arg(a) for a in split_top(m.group(2))]))
+            return
+        m = re.fullmatch(r"(?:return |int ret ?= ?)?allreduce ?<(.*)> ?\((.*)\)", st)
+        if m:
+            if self.deleg:
+                self.fail("two delegations")
+            self.deleg = (self.tnum(m.group(1)), [self.arg(a) for a in split_top(m.group(2))])
+            return
+        if re.fullmatch(r"return (future|lvalue_data|out|ret)", st):
+            return
+        if self.name == "allreduce_2" and _nows(st) in ALLREDUCE2_EXTRA:
+            self.extra.append(_nows(st))
+            if _nows(st).startswith("Type*out="):
+                self.obj["*out"] = 0                                          # temporary array
+            return
+        if self.name == "rrecv_4" and _nows(st) in RRECV_EXTRA:
+            self.extra.append(_nows(st))
+            return
+        self.fail("statement outside the grammar: " + st)
+
+    def ptrs(self):
+        out = []
+        for (t, p) in self.params:
+            t = _nows(t)
+            if t in ("int*", "MPI_Status*"):
+                continue
+            m = re.fullmatch(r"(?:const)?(.*?)(\*|&)", t)
+            if m and not t.endswith("&&"):
+                out.append("(%d, %s)" % (self.pos[p], lean_str(self.tnum(m.group(1)))))
+        return "[%s]" % ", ".join(out)
+
+    def lean(self):
+        g = ".none" if self.guard is None else "(.%s)" % self.guard
+        g = "%s, [%s], %s" % (self.ptrs(), ", ".join("(%d, %d)" % q for q in sorted(self.same)), g)
+        if self.name == "rrecv_4":
+            want = [("MPI_Mprobe", ["source_rank", "tag", "communicator", "&_message", "status"]),
+                    ("MPI_Get_count", ["status", "mpi_data.type()", "&size"]),
+                    ("MPI_Mrecv", ["mpi_data.ptr()", "mpi_data.size()", "mpi_data.type()", "&_message", "status"])]
+            ns = [_nows(x) for x in self.stmts]
+            if self.calls != want or self.extra != RRECV_EXTRA or "mpi_data" not in self.obj \
+                    or ns.index("mpi_data.resize(size)") != ns.index("MPI_Get_count(status,mpi_data.type(),&size)") + 1 \
+                    or ns.index("MPI_Mrecv(mpi_data.ptr(),mpi_data.size(),mpi_data.type(),&_message,status)") != ns.index("mpi_data.resize(size)") + 1:
+                self.fail("probe / count / resize / receive sequence changed")
+            return "⟨%s, .probeCountResizeRecv %d, %s⟩" % (lean_str(self.name), self.obj["mpi_data"], g)
+        if self.name == "allreduce_2":
+            if self.extra != ALLREDUCE2_EXTRA or self.calls or not self.deleg:
+                self.fail("temporary / copy back sequence changed")
+            return "⟨%s, .delegateCopyBack %s [%s], %s⟩" % (lean_str(self.name), lean_str(self.deleg[0]), ", ".join(self.deleg[1]), g)
+        if self.extra:
+            self.fail("unexpected statements")
+        if self.deleg:
+            if self.calls:
+                self.fail("delegation and an MPI call")
+            return "⟨%s, .delegate %s [%s], %s⟩" % (lean_str(self.name), lean_str(self.deleg[0]), ", ".join(self.deleg[1]), g)
+        if len(self.calls) != 1:
+            self.fail("%d MPI calls" % len(self.calls))
+        fn, args = self.calls[0]
+        return "⟨%s, .call %s [%s], %s⟩" % (lean_str(self.name), lean_str(fn), ", ".join(args), g)
+
+
+def wrapper_rows(src):
+    body = mpi_class_body(src)
+    ms = methods(body)
+    tps = method_templates(body)
+    if len(ms) != len(tps):
+        raise TranslateError("member functions of Communication<MPI_Comm> not parsed consistently")
+    rows = {}
+    for (name, params, mbody), tparams in zip(ms, tps):
+        key = "%s_%d" % (name, len(params))
+        if key not in WRAPPERS:
+            if name in ("Communication", "operator", "rank", "size"):
+                continue
+            raise TranslateError("unknown member function %s of Communication<MPI_Comm>" % key)
+        if key in rows:
+            raise TranslateError("two overloads " + key)
+        rows[key] = _Wrapper(name, params, tparams, mbody).lean()
+    for w in WRAPPERS:
+        if w not in rows:
+            raise TranslateError("Communication<MPI_Comm> lost the overload " + w)
+    return [rows[w] for w in WRAPPERS]
+
+
+# ------------------------------------------------------------------------------------------------
 # the sequential stand-in
 # ------------------------------------------------------------------------------------------------
 def class_body(src):
@@ -428,6 +1055,20 @@ def translate(repo):
     srows = singleton_rows([comm_src, traits_src, plocal_src, remote_src])
     out += ["  ⟨%s, [%s], [%s]⟩%s" % (lean_str(f), ", ".join(lean_str(x) for x in sl), ", ".join(lean_str(x) for x in us),
                                   "," if k + 1 < len(srows) else "") for k, (f, sl, us) in enumerate(srows)]
+    out += ["]", "",
+            "/-! ### R4: what the construction block of every `MPITraits<...>::getType()` builds (symbolic execution of the",
+            "straight-line code; struct members in canonical (alphabetical) order) -/",
+            "namespace TyProg", "open DV.C07.TyProg DV.C07.TyProg.Expr"]
+    for (lname, fam, e) in type_programs([traits_src, plocal_src, remote_src]):
+        out.append("/-- `%s::getType()` -/" % fam)
+        out.append("def %s : DV.C07.TyProg.Expr := %s" % (lname, e[1:-1] if e.startswith("(") else e))
+    out += ["end TyProg", "",
+            "/-! ### R4: the MPI call issued by every member function of `Communication<MPI_Comm>` (parameters and template",
+            "parameters by position; factors of a product sorted) -/",
+            "open DV.C07.Wrap in",
+            "def wrapperTable : List DV.C07.Wrap.Row := ["]
+    wrows = wrapper_rows(comm_src)
+    out += ["  %s%s" % (r, "," if k + 1 < len(wrows) else "") for k, r in enumerate(wrows)]
     out += ["]",
             "",
             "/-! ### `Communication<No_Comm>` (primary template in communication.hh), body by body -/",
